@@ -213,6 +213,14 @@ def registry():
     global _CACHE
     if _CACHE is None:
         _CACHE = {n: describe(n, c) for n, c in sorted(all_classes().items())}
+        # a second way of using the general-EOS Riemann solver: a JWL explosive (Shyue's problem; second set: another JWL constant)
+        base = _CACHE["riemann.ep_riemann.GenEOS_Solver"]
+        j = Spec("riemann.ep_riemann.GenEOS_Solver@JWL", base.cls)
+        j.kwargs = dict(xmin=0.0, xd0=50.0, xmax=100.0, rl=1.7, ul=0.0, pl=10.0, gl=1.25, rr=1.0, ur=0.0, pr=0.5, gr=1.25,
+                        A=8.545, B=0.205, R1=4.6, R2=1.35, r0=1.84, e0=0.0, problem="JWL", num_x_pts=1001, num_int_pts=1001)
+        j.alt = {"A": 6.0}
+        j.points = lin(12.0, 88.0); j.t = 12.0; j.cost = "slow"
+        _CACHE[j.name] = j
     return _CACHE
 
 
@@ -246,11 +254,12 @@ STATEFUL = {
     "nohblackboxeos.blackboxnoh.SphericalNohBlackBox": ("bbox", "bbox", {}),
     "riemann.ep_riemann.GenEOS_Solver": ("attr", "riemann", {"ul": 0.5, "gr": 5.0 / 3.0, "pr": 0.2, "num_x_pts": 1001, "num_int_pts": 1001}),
     "radshocks.nED_radshocks.ED_Solver": ("eager", "radshocks", {"M0": 1.4}),
+    "riemann.ep_riemann.GenEOS_Solver@JWL": ("attr", "riemann", {"A": 6.0}),
     "guderley.guderley.Guderley": ("glob", "guderley.ramsey", {"gamma": 3.0}),
 }
 # request-grid dependence that the documentation states (values may move within the
 # documented resolution when the *batch* changes; never when only history changes)
-GRID_DEPENDENT = {"sedov.sedov.Sedov", "sedov.SphericalSedov", "mader.timmes.Mader", "sdrz.sdrz.SteadyDetonationReactionZone",
+GRID_DEPENDENT = {"sedov.sedov.Sedov", "sedov.SphericalSedov", "riemann.ep_riemann.GenEOS_Solver@JWL", "mader.timmes.Mader", "sdrz.sdrz.SteadyDetonationReactionZone",
                   "riemann.ep_riemann.GenEOS_Solver",
                   "riemann2D_2section_steadystate.ep_riemann2D_2section_steadystate.IGEOS_Solver"}
 BBOX_TOL = {1: 1.0e-10, 2: 1.0e-3}
